@@ -212,7 +212,7 @@ def run(pid, tier, seed, opts):
             n = int(s.get("rows", 0))
             rows += n
             counters["rows_" + label] = counters.get("rows_" + label, 0) + n
-            for key in ("inserts", "searches", "cancelled", "concurrent_rows", "full_index_rows"):
+            for key in ("inserts", "searches", "cancelled", "concurrent_rows", "full_index_rows", "huge_rows"):
                 counters[key + "_" + mode] = counters.get(key + "_" + mode, 0) + int(s.get(key, 0))
             for d in filter(None, s.get("dims", "").split(",")):
                 dims_by_kernel.setdefault(label, set()).add(int(d))
